@@ -118,6 +118,19 @@ func (m *c11mon) After(g *gw.GW, ev string, sn []gw.SNOut, mq []gw.MQOut, setup 
 	}
 	if st.kind == "T" {
 		m.timers++
+		// the gateway's own retry budget towards the *broker* (PUBREC waiting for PUBREL) can run out on a timer:
+		// a PUBREL arriving after that is not owed to the client any more (the budget itself is C19's subject)
+		for id := range m.awaitRel {
+			alive := false
+			for _, tx := range g.H.VTransactions() {
+				if strings.HasPrefix(tx, fmt.Sprintf("brokerid%d=", id)) {
+					alive = true
+				}
+			}
+			if !alive {
+				delete(m.awaitRel, id)
+			}
+		}
 	}
 	for _, o := range mq {
 		if o.P.Type == refmqtt.PINGREQ {
